@@ -526,8 +526,11 @@ type runner struct {
 	body    hcl.Body
 	model   refbody.Model
 	content absconf.Body
-	fails   map[string]*failure
-	sig     sigAcc
+	// twin: for a merge of exactly one file, that file's body on its own; every
+	// step is run on it too and must give the same observation (L5, directly).
+	twin  hcl.Body
+	fails map[string]*failure
+	sig   sigAcc
 	// current schema
 	es  []Elem
 	hs  map[uint32]*hcl.BodySchema
@@ -597,6 +600,11 @@ func (r *runner) schema(es []Elem, partsList []int, only []int) int64 {
 		r.fail("content", cl, d)
 		return 0
 	}
+	if r.twin != nil {
+		if cl, d := sameObs(oneReal, observe(r.twin.Content(hFull)), false); cl != "" {
+			r.fail("content", "one-file-merge-vs-file."+cl, "merge of one file vs the file itself: "+d)
+		}
+	}
 	n := int64(0)
 	for _, parts := range partsList {
 		assignments(len(es), parts, func(a []int) bool {
@@ -626,7 +634,7 @@ func (r *runner) split(assign []int, parts int, oneReal robs, oneRef refbody.Res
 	for i, p := range assign {
 		masks[p] |= 1 << i
 	}
-	curB, curM := r.body, r.model
+	curB, curM, curT := r.body, r.model, r.twin
 	union := robs{blocks: map[string][]string{}}
 	unionRefErrs, anyUnspec := 0, false
 	unspecNames := map[string]bool{}
@@ -661,10 +669,18 @@ func (r *runner) split(assign []int, parts int, oneReal robs, oneRef refbody.Res
 			r.fail(op, cl, d, tags(cl)...)
 			return
 		}
+		var remT hcl.Body
+		if curT != nil {
+			tc, tr, td := curT.PartialContent(h)
+			remT = tr
+			if cl, d := sameObs(got, observe(tc, td), false); cl != "" {
+				r.fail(op, "one-file-merge-vs-file."+cl, "merge of one file vs the file itself: "+d)
+			}
+		}
 		if i < parts-1 {
 			accumulate(&union, got)
 			note(pr, masks[i])
-			curB, curM = rem, remM
+			curB, curM, curT = rem, remM, remT
 			continue
 		}
 		// last part, ending 1: it was applied partially too; look at what remains (L3)
@@ -674,14 +690,30 @@ func (r *runner) split(assign []int, parts int, oneReal robs, oneRef refbody.Res
 				labelMismatchBefore = true
 			}
 		}
-		r.remainder(rem, remM, tags)
+		r.remainder(rem, remM, remT, tags)
 		labelMismatchBefore = lm
-		// ending 2: the last part is applied exhaustively (L4)
+		// ending 2: the last part is applied exhaustively to the same remainder (L4)
+		first := got
 		got = observe(curB.Content(h))
 		ref := curM.Content(f)
 		if cl, d := mismatch(got, ref, countErrs); cl != "" {
 			r.fail("content-on-remainder", cl, d, tags(cl)...)
 			return
+		}
+		if curT != nil {
+			if cl, d := sameObs(got, observe(curT.Content(h)), false); cl != "" {
+				r.fail("content-on-remainder", "one-file-merge-vs-file."+cl, "merge of one file vs the file itself: "+d)
+			}
+		}
+		// A body may be used any number of times: the same remainder (or, with a
+		// single part, the source body) is processed again, partially and
+		// exhaustively, and must answer exactly as before.
+		pc2, _, pd2 := curB.PartialContent(h)
+		if cl, d := sameObs(first, observe(pc2, pd2), true); cl != "" {
+			r.fail("reuse", "partial-again."+cl, "PartialContent with the same schema on the same body, before and after other calls: "+d)
+		}
+		if cl, d := sameObs(got, observe(curB.Content(h)), true); cl != "" {
+			r.fail("reuse", "content-again."+cl, "Content with the same schema on the same body, twice: "+d)
 		}
 		accumulate(&union, got)
 		note(ref, masks[i])
@@ -716,6 +748,43 @@ func (r *runner) split(assign []int, parts int, oneReal robs, oneRef refbody.Res
 	}
 }
 
+// sameObs compares two observations of the real code that must be identical
+// (the same operation repeated on one body; a one-file merge against its
+// file). It returns the clause that differs.
+func sameObs(a, b robs, exactCount bool) (string, string) {
+	if (a.nerr > 0) != (b.nerr > 0) || (exactCount && a.nerr != b.nerr) {
+		return "errors", fmt.Sprintf("%d errors (%s) vs %d errors (%s)", a.nerr, a.diag(), b.nerr, b.diag())
+	}
+	if strings.Join(a.attrs, ",") != strings.Join(b.attrs, ",") {
+		return "attrs", fmt.Sprintf("attributes %v vs %v", a.attrs, b.attrs)
+	}
+	key := func(o robs) string {
+		var ts []string
+		for t, bs := range o.blocks {
+			if len(bs) > 0 {
+				ts = append(ts, t+":"+strings.Join(bs, " "))
+			}
+		}
+		sort.Strings(ts)
+		return strings.Join(ts, ";")
+	}
+	if key(a) != key(b) {
+		return "blocks", fmt.Sprintf("blocks %q vs %q", key(a), key(b))
+	}
+	return "", ""
+}
+
+func observeJust(b hcl.Body) robs {
+	attrs, diags := b.JustAttributes()
+	o := robs{attrs: observeAttrs(attrs), blocks: map[string][]string{}, diags: diags}
+	for _, d := range diags {
+		if d.Severity == hcl.DiagError {
+			o.nerr++
+		}
+	}
+	return o
+}
+
 func dropNames(as []string, drop map[string]bool) []string {
 	var out []string
 	for _, a := range as {
@@ -739,7 +808,7 @@ func accumulate(u *robs, got robs) {
 // was applied partially (L3): JustAttributes, and exhaustive processing with
 // the complement schema (every name of the logical content that is not in the
 // schema, with its own kind and label count).
-func (r *runner) remainder(rem hcl.Body, remM refbody.Model, tags func(string) []string) {
+func (r *runner) remainder(rem hcl.Body, remM refbody.Model, remT hcl.Body, tags func(string) []string) {
 	inSchema := map[string]bool{}
 	for _, e := range r.es {
 		inSchema[e.Name] = true
@@ -771,13 +840,7 @@ func (r *runner) remainder(rem hcl.Body, remM refbody.Model, tags func(string) [
 			comp = append(comp, Elem{name, "block", len(it.Labels)})
 		}
 	}
-	attrs, diags := rem.JustAttributes()
-	ja := robs{attrs: observeAttrs(attrs), blocks: map[string][]string{}, diags: diags}
-	for _, d := range diags {
-		if d.Severity == hcl.DiagError {
-			ja.nerr++
-		}
-	}
+	ja := observeJust(rem)
 	if cl, d := mismatch(ja, remM.JustAttributes(), false); cl != "" {
 		var extra []string
 		if cl == "error-spurious" && consumedBlocks && !remainingBlocks {
@@ -788,6 +851,18 @@ func (r *runner) remainder(rem hcl.Body, remM refbody.Model, tags func(string) [
 	got := observe(rem.Content(hclSchema(comp)))
 	if cl, d := mismatch(got, remM.Content(refSchema(comp)), r.kind != "expanded"); cl != "" {
 		r.fail("complement-on-remainder", cl, d+" (complement schema "+schemaString(comp)+")", tags(cl)...)
+	}
+	if remT != nil {
+		if cl, d := sameObs(ja, observeJust(remT), false); cl != "" {
+			r.fail("justattrs-on-remainder", "one-file-merge-vs-file."+cl, "merge of one file vs the file itself: "+d)
+		}
+		if cl, d := sameObs(got, observe(remT.Content(hclSchema(comp))), false); cl != "" {
+			r.fail("complement-on-remainder", "one-file-merge-vs-file."+cl, "merge of one file vs the file itself: "+d)
+		}
+	}
+	// the final remainder is used again after it was processed exhaustively
+	if cl, d := sameObs(ja, observeJust(rem), true); cl != "" {
+		r.fail("reuse", "justattrs-again."+cl, "JustAttributes on the same remainder before and after Content: "+d)
 	}
 }
 
@@ -867,6 +942,15 @@ func runCase(d Data, kind string, content absconf.Body, real Real) (*runner, []s
 		return nil, nil, 0, err
 	}
 	r := &runner{kind: kind, body: body, model: model, content: content, fails: map[string]*failure{}}
+	if real.Kind == "merged" && len(real.Cuts) == 1 {
+		tr := Real{Kind: "native"}
+		if real.Syntax == "j" {
+			tr = Real{Kind: "json-compact"}
+		}
+		if r.twin, _, _, err = realise(content, tr); err != nil {
+			return nil, nil, 0, err
+		}
+	}
 	splits := int64(0)
 	if d.Pin != nil {
 		var pl []int
@@ -1082,12 +1166,11 @@ func realisations(content absconf.Body, thorough bool) []Real {
 			}
 		}
 	}
-	// merged: the content cut into 2 (thorough: also 3) consecutive files in every way, every syntax mix
-	files := []int{2}
-	if thorough {
-		files = []int{2, 3}
-	}
-	for _, k := range files {
+	// merged: one file (hcl.MergeBodies of a single body), and the content cut into 2 and into 3
+	// consecutive files in every way (empty files included), every file native or JSON. Quick keeps
+	// the three-file merges of three-item contents to all-native files (every cut) and native/JSON/native
+	// (one item per file).
+	for _, k := range []int{1, 2, 3} {
 		var cutsets [][]int
 		var rec func(start int, cur []int)
 		rec = func(start int, cur []int) {
@@ -1121,6 +1204,9 @@ func realisations(content absconf.Body, thorough bool) []Real {
 						syn[i] = 'n'
 						valid = valid && okN[i]
 					}
+				}
+				if k == 3 && !thorough && n >= 3 && string(syn) != "nnn" && !(string(syn) == "njn" && cuts[0] == 1 && cuts[1] == 2) {
+					continue
 				}
 				if valid {
 					out = append(out, Real{Kind: "merged", Cuts: cuts, Syntax: string(syn)})
@@ -1261,7 +1347,11 @@ func countMode(tier string) {
 			fmt.Println("schemas", len(schemas(d.Names, d.MaxSchema, d.Swap)), "splits per case", n)
 		}
 		cases++
-		splits += per[key]
+		if d.Chunks > 1 {
+			splits += per[key] / int64(d.Chunks)
+		} else {
+			splits += per[key]
+		}
 		k := d.Real.Kind
 		if k == "merged" {
 			k = fmt.Sprintf("merged%d", len(d.Real.Cuts))
@@ -1283,9 +1373,9 @@ func main() {
 		Title:     "Schema-driven body processing accounts for every item exactly once",
 		Technique: "bounded exhaustive enumeration of logical contents x Body implementations x schemas x ordered schema splits; every Content / PartialContent / JustAttributes result compared with a set/sequence reference model, two-step vs one-step compared directly",
 		Rule: "logical contents: every sequence of <= 3 items over {a=, b=, x{}, x \"l\"{}, x \"l\" \"l\"{}, y{}} (thorough: + y \"l\"{}), each item identifiable (attribute value 10+i, block body `id = 20+i`, labels alternate k/m); sequences with a repeated attribute name only as merges that put the definitions in different files; blocks of one type with different label counts not as JSON. " +
-			"Realised as: native; JSON compact (one object, adjacent blocks joined) and JSON array-heavy (arrays at every level); dynblock.Expand of the native body with all blocks static, with every maximal run of same-type blocks written as one dynamic block with a constant for_each, and with only the first run dynamic (thorough: every subset of runs); hcl.MergeBodies of the content cut into 2 (thorough: 2 and 3) consecutive files in every way incl. empty files, every file native or JSON. " +
+			"Realised as: native; JSON compact (one object, adjacent blocks joined) and JSON array-heavy (arrays at every level); dynblock.Expand of the native body with all blocks static, with every maximal run of same-type blocks written as one dynamic block with a constant for_each, and with only the first run dynamic (thorough: every subset of runs); hcl.MergeBodies of ONE file (native or JSON; every step is also run on the file itself and must give the same observation), of the content cut into 2 consecutive files in every way incl. empty files with every file native or JSON, and cut into 3 consecutive files in every way (contents of <= 2 items: every syntax mix; 3 items: all-native for every cut and native/JSON/native with one item per file; thorough: every mix), so that files that contribute nothing to a step occur at every position. " +
 			"x ALL schemas over the names a,b,x,y with <= 3 elements (attribute optional/required; block type with 0, 1 or 2 labels; names absent from a content play the part of unknown names) -- thorough: over a,b,x,y,z with <= 4 elements, z (never present) as optional/required attribute or block type, plus the kind swaps 'a requested as a block type' and 'x requested as an attribute' (merges of 3 files: the quick schema space) " +
-			"x EVERY ordered assignment of the schema elements to 2 parts, empty parts included (thorough: also every assignment onto 3 non-empty parts). Per schema: Content(schema). Per split: PartialContent(part 1) [, PartialContent(part 2)] and then on the remainder both Content(last part) and PartialContent(last part) followed, on the final remainder, by JustAttributes and by Content(complement schema = every name of the content outside the schema with its own kind and label count). " +
+			"x EVERY ordered assignment of the schema elements to 2 parts, empty parts included (thorough: also every assignment onto 3 non-empty parts). Per schema: Content(schema). Per split: PartialContent(part 1) [, PartialContent(part 2)] and then on the remainder both Content(last part) and PartialContent(last part) followed, on the final remainder, by JustAttributes and by Content(complement schema = every name of the content outside the schema with its own kind and label count). Bodies are reused: the source body serves all schemas and splits of a case; every remainder is processed partially, exhaustively, partially again and exhaustively again with the same schema, and the final remainder answers JustAttributes before and after its exhaustive processing -- repeated calls must give identical observations (incl. the number of errors). " +
 			"Every result is compared with ref/refbody (L1-L3): attribute names and values, per-type block sequences with labels and block identity, error presence, number of errors >= number of erroneous items (not for expanded bodies, where one dynamic block stands for several items); the union of the steps is compared with the single step directly (L4); all implementations are held to the same reference on the same logical content (L5). A case = (content, realisation[, schema chunk]) and covers all its schemas and splits; the check keeps going after a failure and reports per case the failure class that is not yet a recorded finding.",
 		Assumptions: []string{
 			"the reference model ref/refbody is the specification's reading of spec.md 'Schema-driven Processing' / 'Partial Processing of Body Content' / 'Dynamic Attributes Processing' and json/spec.md 'Structural Elements'; where those are silent (label-count mismatch content, duplicate attribute content, null / empty label levels in JSON) the model marks the affected names unspecified and only error presence is compared",
